@@ -13,7 +13,7 @@ CHECKS = {
     "C12": dict(spec="TblScope", consts={Q: {"MaxLen": 3}, T: {"MaxLen": 4}},
                 tables=[("VERIF_TABLE_SCOPE", "c12scope", "scope"), ("VERIF_TABLE_AUD", "c12aud", "aud"), ("VERIF_TABLE_FLOW", "c12flow", "flow")],
                 cap={Q: 20000, T: 10**7}),
-    "C07L": dict(spec="TblLifespan", consts={Q: {}, T: {}}, tables=[("VERIF_TABLE_LIFE", "c07life", "life")], cap={Q: 400, T: 10**7}, also=["C07A"]),
+    "C07L": dict(spec="TblLifespan", consts={Q: {}, T: {}}, tables=[("VERIF_TABLE_LIFE", "c07life", "life")], cap={Q: 10**7, T: 10**7}, also=["C07A"]),
     # C07 "JWT assertions are refused once their expiry instant has passed": the rows of TblAssertion whose exp / nbf is not the right one
     "C07A": dict(spec="TblAssertion", consts={Q: {"MaxDev": 2}, T: {"MaxDev": 3}}, tables=[("VERIF_TABLE_ASSERT", "c15", "assert")], cap={Q: 10**7, T: 10**7},
                  rowfilter=lambda r: r["f"].get("exp") != "future" or r["f"].get("nbf", "absent") != "absent"),
@@ -23,7 +23,8 @@ CHECKS = {
     "C20": dict(spec="TblErrorWire", consts={Q: {}, T: {}}, tables=[("VERIF_TABLE_ERRWIRE", "c20wire", "errwire")], cap={Q: 10**7, T: 10**7}),
     "C15": dict(spec="TblAssertion", consts={Q: {"MaxDev": 2}, T: {"MaxDev": 3}}, tables=[("VERIF_TABLE_ASSERT", "c15", "assert")], cap={Q: 10**7, T: 10**7}),
     "C14": dict(spec="TblIDToken", consts={Q: {}, T: {}}, tables=[("VERIF_TABLE_IDT", "c14", "idt")], cap={Q: 10**7, T: 10**7}),
-    "C13": dict(spec="TblAuthz", consts={Q: {}, T: {}}, tables=[("VERIF_TABLE_AUTHZ", "c13", "authz")], cap={Q: 16000, T: 10**7},
+    "C13": dict(spec="TblAuthz", consts={Q: {}, T: {}}, tables=[("VERIF_TABLE_AUTHZ", "c13", "authz")], cap={Q: 24000, T: 10**7},
+                stratify=lambda r: (r["verdict"], tuple(r["types"]), r["mode"], r["regmodes"], r["reggrants"]),
                 also=["C13RO"]),
     "C13RO": dict(spec="TblRequestObject", consts={Q: {}, T: {}}, tables=[("VERIF_TABLE_REQOBJ", "c13ro", "reqobj")], cap={Q: 10**7, T: 10**7}),
     "C11": dict(spec="TblRedirect", consts={Q: {"Depth": 1}, T: {"Depth": 2}},
@@ -314,8 +315,22 @@ def run(key, prop, tier, seed, binary, wd):
         full = len(rows)
         cap = c["cap"][tier]
         if full > cap:
-            random.Random(seed).shuffle(rows)
-            rows = rows[:cap]
+            rnd = random.Random(seed)
+            rnd.shuffle(rows)
+            if c.get("stratify"):
+                # stratified sample: every class of rows (by expected verdict and the request features that decide it) is
+                # represented; small classes -- the boundary cases -- completely
+                groups = {}
+                for r in rows:
+                    groups.setdefault(c["stratify"](r), []).append(r)
+                quota = max(4, cap // (2 * len(groups)))
+                picked, rest = [], []
+                for g in groups.values():
+                    picked += g[:quota]
+                    rest += g[quota:]
+                rows = picked + rest[:max(0, cap - len(picked))]
+            else:
+                rows = rows[:cap]
             tf = os.path.join(wd, f"table_{short}_sample.json")
             json.dump(rows, open(tf, "w"))
         rep = run_table(binary, kind, tf, wd, n=c.get("n", {}).get(tier, 1), seed=seed)
